@@ -9,7 +9,8 @@ git diff -- src > /tmp/$(basename $wt).check.diff
 cmp -s /tmp/$(basename $wt).check.diff MUTATION/patch.diff || echo "$wt: patch.diff differs from worktree diff (using worktree diff)"
 res=$(/venv/bin/python -m pytest -q -p no:cacheprovider tests 2>&1 | tail -1)
 /venv/bin/python MUTATION/demo.py > /tmp/$(basename $wt).demo_with.log 2>&1; with=$?
-git stash -q
+# (no `git stash`: the stash is shared by all worktrees of a repository, parallel runs would swap the changes)
+git checkout -q -- src
 /venv/bin/python MUTATION/demo.py > /tmp/$(basename $wt).demo_without.log 2>&1; without=$?
-git stash pop -q
+git apply /tmp/$(basename $wt).check.diff
 echo "$wt: pytest[$res] demo_with=$with demo_without=$without"
